@@ -108,3 +108,59 @@ PROPERTIES["C12"] = {
     "outside": "longer lists; header names/values as symbolic strings; greedy alignment with foreign headers in the middle of the list",
     "assumptions": ["E1 tracing stub", "observations carry V4/V6 and Zero/NonZero only (what the analyzers emit)"],
 }
+
+# ------------------------------------------------------------------------------------------ C19
+_c19 = [
+    H("c19::c19_freq_guards", "quick", "all (ts_ref, ts_cur) in u32^2, reference arrival < 2^44 ms, interval 0..=700000 ms, restricted to pairs the integer guards reject",
+      "Err (interval outside 25ms..600s, < 5 ticks, backward jump > 15000 ticks within 100 ms)"),
+    H("c19::c19_frequency_time_reversal", "quick", "all arrival pairs with t_cur < t_ref", "Err"),
+]
+_q_ms = ["25", "99", "100", "1000", "30001", "600000", "600001"]
+for ms in ["24", "25", "26", "99", "100", "101", "1000", "1001", "7777", "30000", "30001", "333333", "599999", "600000", "600001"]:
+    _c19.append(H(f"c19::c19_freq_rate_ms_{ms}", "quick" if ms in _q_ms else "thorough",
+                  f"all (ts_ref, ts_cur) in u32^2 at interval {ms} ms",
+                  "Ok iff guards pass and ms <= ticks*1000 <= 1500*ms (integer oracle); value == ticks*1000/ms"))
+_c19 += [
+    H("c19::c19_rounding_grid_1_to_89", "quick", "raw = ticks*1000/ms for all valid (ticks, ms) with raw in [1, 89.99]", "final frequency on documented grid"),
+    H("c19::c19_rounding_grid_90_to_110", "quick", "raw in [90, 110]", "== 100"),
+    H("c19::c19_rounding_grid_110_to_899", "quick", "raw in (110, 900)", "p0f ranges / multiples of 100 within 10 %"),
+    H("c19::c19_rounding_grid_900_to_1100", "quick", "raw in [900, 1100]", "== 1000"),
+    H("c19::c19_rounding_grid_1100_to_1500", "quick", "raw in (1100, 1500]", "p0f ranges / multiples of 100 within 10 %"),
+    H("c19::c19_label_rule", "quick", "all flag bytes x all port pairs", "handshake flags, else src>1024 && dst<=1024"),
+]
+for f in ["2", "7", "10", "15", "50", "60", "100", "150", "250", "500", "600", "1000", "1100", "1500"]:
+    _c19.append(H(f"c19::c19_uptime_split_f{f}", "quick" if f in ("10", "100", "250", "1000", "1500") else "thorough",
+                  f"all ts in u32 at {f} Hz", "days == floor(ts/f/86400); hours<24; min<60; wrap == floor(2^32/(f*86400)); freq"))
+for ms in ["10", "40", "1000", "29000", "31000", "600000", "600001"]:
+    for side in ["cli", "srv"]:
+        _c19.append(H(f"c19::c19_state_two_ms_{ms}_{side}", "quick" if (ms in ("10", "1000", "31000", "600001") and side == "cli") or (ms == "1000") else "thorough",
+                      f"two segments of one endpoint {ms} ms apart, both TSvals symbolic, side {side}; 4-slot table model",
+                      "first stores; second reports iff valid pair, in the sender's slot only, computed from the later timestamp"))
+for n in ["10_100", "1000_1000", "10_29000"]:
+    for side in ["cli", "srv"]:
+        _c19.append(H(f"c19::c19_state_bad_{n}_{side}", "quick" if (n == "1000_1000" or side == "cli") else "thorough",
+                      f"three segments at intervals {n} ms, first pair out of range, all TSvals symbolic, side {side}",
+                      "third yields nothing (not re-evaluated while the entry lives)"))
+for n in ["same_tuple", "reversed_tuple"]:
+    for side in ["cli", "srv"]:
+        _c19.append(H(f"c19::c19_state_dir_{n}_{side}", "quick",
+                      f"segment of the other direction interleaved ({n}), all TSvals symbolic, side {side}",
+                      "own measurement unaffected; other direction stores only"))
+PROPERTIES["C19"] = {
+    "harnesses": _c19,
+    "explanation": "Bounded model checking of the real uptime.rs: the frequency kernel over all timestamp pairs and intervals "
+                   "against an integer (cross-multiplied) oracle, the rounding chain over all raw rates of the form ticks*1000/ms, "
+                   "the uptime split over all timestamps x grid frequencies (f64 /, %, casts decided by CBMC's float encoding), "
+                   "the labelling rule over all flags/ports, and the check_ts_tcp state machine for 2-3 segments with symbolic "
+                   "times and timestamps on the 4-slot connection-table model.",
+    "functions": ["uptime::calculate_frequency_p0f_style", "uptime::guess_frequency", "uptime::round_frequency_p0f_style",
+                  "uptime::calculate_uptime_from_frequency", "uptime::check_ts_tcp", "uptime::get_unix_time_ms (hook clock)",
+                  "tcp_process::{from_client, from_server, is_packet_from_client}"],
+    "bounds": "frequency guards: all inputs; rate limits and state machine: all timestamp values at 15 (7 quick) concrete intervals around every boundary; "
+              "uptime split: all timestamps at 14 (5 quick) grid frequencies; <= 3 segments per endpoint, <= 2 endpoints in the table",
+    "outside": "intervals other than the enumerated ones for the f64 rate test (symbolic interval: f64 division vs integer oracle not decided in 25 min); "
+               "exact hours/minutes values (CBMC's f64 % is inexact - spurious counterexamples); longer histories; table eviction; real ttl_cache/Instant (modelled, E3); "
+               "uptime kernel stubbed by an argument recorder inside the state-machine harnesses",
+    "assumptions": ["E1 tracing stub", "E3 ttl_cache model (4 slots, harness clock)", "E6 alloc::fmt::format stubbed (error strings not read)",
+                    "clock: verif-hooks set_clock_ms drives get_unix_time_ms; model clock set to the same instant"],
+}
